@@ -262,7 +262,9 @@ func runGraph(root string, g *graph) (*tracer, error) {
 // ---------------------------------------------------------------- static view of the input (class)
 
 // resolve gives the module a spec can resolve to, by the documented rules
-// (relative against dir; bundled name; first lib dir holding the file).
+// (relative against dir; bundled name; first lib dir holding the file).  Paths
+// are taken under a fictitious root /R so that a spec climbing above the case
+// root is a miss, as it is on disk.
 func (g *graph) resolve(dir string, spec string) int {
 	byPath := map[string]int{}
 	for i, m := range g.Mods {
@@ -272,16 +274,16 @@ func (g *graph) resolve(dir string, spec string) int {
 			}
 			continue
 		}
-		byPath["/"+m.Path] = i
+		byPath["/R/"+m.Path] = i
 	}
 	if strings.HasPrefix(spec, "./") || strings.HasPrefix(spec, "../") {
-		if i, ok := byPath[filepath.Clean("/"+dir+"/"+spec)]; ok {
+		if i, ok := byPath[filepath.Clean("/R/"+dir+"/"+spec)]; ok {
 			return i
 		}
 		return -1
 	}
 	for _, l := range g.LibDirs {
-		if i, ok := byPath[filepath.Join("/"+l, spec)]; ok {
+		if i, ok := byPath[filepath.Join("/R/"+l, spec)]; ok {
 			return i
 		}
 	}
